@@ -281,10 +281,10 @@ def gen_series(rng, out, n, big):
             ops.append(f'col {rng.randrange(len(readers))}')
         out.append(Case(f'series obs {readers} ' + ' ; '.join(ops), H, ('series', 'observable', 'below-default-limit', 'readers-' + readers)))
     # the default limit exceeded through the provider (quick tier: a few; thorough: below)
-    for _ in range(3):
+    for _ in range(2):
         readers = rng.choice(['D', 'C', 'DC'])
-        cnt = rng.choice([1999, 2000, 2001, 2300])
-        out.append(Case(f'series {rng.choice(["sdk", "sdkd"])} * {readers} recn 6b 0 {cnt} 1 ; col 0 ; recn 6b {cnt // 2} {cnt + 300} 2 ; col {len(readers) - 1} ; col 0', H,
+        cnt = rng.choice([1999, 2000, 2001, 2100])
+        out.append(Case(f'series {rng.choice(["sdk", "sdkd"])} * {readers} recn 6b 0 {cnt} 1 ; col 0 ; recn 6b {cnt // 2} {cnt + 150} 2 ; col {len(readers) - 1} ; col 0', H,
                         ('series', 'sdk', 'default-limit-exceeded', 'readers-' + readers)))
     if big:
         for _ in range(12):
